@@ -81,7 +81,7 @@ COINCIDENT_CLASSES = ["touch", "touch-left", "A-in-B-flushL", "A-in-B-flushR", "
                       "identical"]
 REL_ANGLES = [("0", 0.0), ("1", 1.0), ("20", 20.0), ("-20", -20.0), ("60", 60.0), ("-60", -60.0)]
 DEPTHS = [("-0.1", -0.1), ("0", 0.0), ("1e-12", 1e-12), ("0.1", 0.1)]
-OBSTACLES = ["plane", "corner", "circle-node", "circle-gauss"]
+OBSTACLES = ["plane", "corner", "circle-node", "circle-gauss", "combined"]
 FIELDS = ["rigid", "rot", "stretch", "bulge"]
 STIFF = [("1", 1.0), ("1e3", 1e3)]
 EDGESETS = ["face", "all"]
@@ -277,26 +277,28 @@ def _run_cpp(g, tier, seed, rec):
             d = float(d)
 
             def fail(routine, sig, extra):
-                rec.violation("EdgeCpp.%s|t=%s|d=%s|%s" % (routine, tcl, dcl, sig), cid,
-                              dict(det0, mode=mode, **extra))
+                # one key per routine and position class; the first failing signature of a routine is reported
+                rec.violation("EdgeCpp.%s|t=%s|%s" % (routine, tcl, sig), cid,
+                              dict(det0, mode=mode, d_class=dcl, **extra))
 
             if not (onp.all(onp.isfinite(c)) and math.isfinite(t) and math.isfinite(d) and math.isfinite(tl)
                     and onp.all(onp.isfinite(cl))):
                 fail("cpp", "non-finite", {"point": c, "t": t, "dist": d})
                 continue
             # cpp: closest point of the segment
+            e_pt = float(onp.max(onp.abs(c - onp.asarray(c_ref, dtype=float))))
+            e_t = abs(t - float(sc_ref))
+            rec.track_max("cpp: |point - ref| / scale", e_pt / scale)
+            rec.track_max("cpp: |t - ref| / cond", e_t / (tau_t / 1e-12))
             if not (0.0 <= t <= 1.0):
                 fail("cpp", "parameter-outside-[0,1]", {"t_returned": t})
-            e_pt = float(onp.max(onp.abs(c - onp.asarray(c_ref, dtype=float))))
-            rec.track_max("cpp: |point - ref| / scale", e_pt / scale)
-            if e_pt > tau:
-                fail("cpp", "not-the-closest-point", {"returned": c, "expected": onp.asarray(c_ref, dtype=float)})
-            if math.hypot(*(p - c)) > bf + tau:
+            elif e_pt > tau:
+                fail("cpp", "not-the-closest-point", {"returned": c, "expected": onp.asarray(c_ref, dtype=float),
+                                                      "t_returned": t})
+            elif math.hypot(*(p - c)) > bf + tau:
                 fail("cpp", "farther-than-a-sampled-segment-point",
                      {"returned": c, "dist_returned": math.hypot(*(p - c)), "best_sampled": bf})
-            e_t = abs(t - float(sc_ref))
-            rec.track_max("cpp: |t - ref| / cond", e_t / (tau_t / 1e-12))
-            if e_t > tau_t:
+            elif e_t > tau_t:
                 fail("cpp", "parameter-wrong", {"t_returned": t, "expected": float(sc_ref)})
             # cpp_line: unclamped projection
             e_l = float(onp.max(onp.abs(cl - (a + float(s_ref) * (b - a)))))
@@ -308,7 +310,7 @@ def _run_cpp(g, tier, seed, rec):
             rec.track_max("cpp_distance: ||d| - ref| / scale", e_d / scale)
             if e_d > tau:
                 fail("cpp_distance", "magnitude-wrong", {"returned": d, "expected_abs": dist_ref})
-            if dd != 0.0 and abs(side_ref) > 1e-10 * scale:
+            elif dd != 0.0 and abs(side_ref) > 1e-10 * scale:
                 if (d > 0) != (side_ref > 0) or d == 0.0:
                     fail("cpp_distance", "sign-wrong", {"returned": d, "side": side_ref})
             if mode == "eager":
@@ -835,6 +837,14 @@ def _run_levelset(g, tier, seed, rec):
         params = {"xLoc": 0.0, "yLoc": 0.0}
         lib_ls = lambda x: Levelset.corner(x, 0.0, 0.0)                                     # noqa
         ref_ls = lambda x: ref.corner(x, 0.0, 0.0)                                          # noqa
+    elif ob == "combined":
+        # Levelset.combined: plane y <= 1 and corner x >= 0, y >= 0 at once (the unit square fits exactly)
+        direction = (0.0, 1.0)
+        face = onp.vstack([top, onp.asarray(mesh.sideSets["left"]), onp.asarray(mesh.sideSets["bottom"])])
+        params = {"plane_yLoc": 1.0, "corner": [0.0, 0.0]}
+        lib_ls = lambda x: Levelset.combined(x, lambda y: Levelset.plane(y, 1.0),                  # noqa
+                                             lambda y: Levelset.corner(y, 0.0, 0.0))
+        ref_ls = lambda x: onp.minimum(ref.plane(x, 1.0), ref.corner(x, 0.0, 0.0))                # noqa
     else:
         direction, face = (0.0, 1.0), top
         if ob == "circle-node":
